@@ -128,9 +128,17 @@ class CellResolutionAttribute:
 
       if m is not None:
 
-        return model.CellResolutionType(columns=int(m.group(1)), rows=int(m.group(2)))
+        try:
 
-      LOGGER.error("ttp:cellResolution invalid syntax")
+          return model.CellResolutionType(columns=int(m.group(1)), rows=int(m.group(2)))
+
+        except ValueError:
+
+          LOGGER.error("ttp:cellResolution rows and columns must be larger than 0")
+
+      else:
+
+        LOGGER.error("ttp:cellResolution invalid syntax")
 
     # default value in TTML
 
@@ -155,9 +163,20 @@ class ExtentAttribute:
 
       s = extent.split(" ")
 
-      (w, w_units) = utils.parse_length(s[0])
+      if len(s) != 2:
+        LOGGER.error("tts:extent on <tt> must have two components")
+        return None
 
-      (h, h_units) = utils.parse_length(s[1])
+      try:
+
+        (w, w_units) = utils.parse_length(s[0])
+
+        (h, h_units) = utils.parse_length(s[1])
+
+      except ValueError:
+
+        LOGGER.error("tts:extent on <tt> has invalid syntax")
+        return None
 
       if w_units != "px" or h_units != "px":
         LOGGER.error("ttp:extent on <tt> does not use px units")
@@ -166,7 +185,14 @@ class ExtentAttribute:
       if not w.is_integer() or not h.is_integer():
         LOGGER.error("Pixel resolution dimensions must be integer values")
 
-      return model.PixelResolutionType(int(w), int(h))
+      try:
+
+        return model.PixelResolutionType(int(w), int(h))
+
+      except ValueError:
+
+        LOGGER.error("tts:extent on <tt> must have positive dimensions")
+        return None
 
     return None
 
@@ -193,24 +219,38 @@ class ActiveAreaAttribute:
         LOGGER.error("Syntax error in ittp:activeArea on <tt>")
         return None
 
-      (left_offset, left_offset_units) = utils.parse_length(s[0])
+      try:
 
-      (top_offset, top_offset_units) = utils.parse_length(s[1])
+        (left_offset, left_offset_units) = utils.parse_length(s[0])
 
-      (w, w_units) = utils.parse_length(s[2])
+        (top_offset, top_offset_units) = utils.parse_length(s[1])
 
-      (h, h_units) = utils.parse_length(s[3])
+        (w, w_units) = utils.parse_length(s[2])
+
+        (h, h_units) = utils.parse_length(s[3])
+
+      except ValueError:
+
+        LOGGER.error("Syntax error in ittp:activeArea on <tt>")
+        return None
 
       if w_units != "%" or h_units != "%" or left_offset_units != "%" or top_offset_units != "%":
         LOGGER.error("ittp:activeArea on <tt> must use % units")
         return None
 
-      return model.ActiveAreaType(
-        left_offset / 100,
-        top_offset / 100,
-        w / 100,
-        h / 100
-        )
+      try:
+
+        return model.ActiveAreaType(
+          left_offset / 100,
+          top_offset / 100,
+          w / 100,
+          h / 100
+          )
+
+      except ValueError:
+
+        LOGGER.error("ittp:activeArea on <tt> is outside the root container")
+        return None
 
     return None
 
@@ -241,7 +281,7 @@ class TickRateAttribute:
 
       m = TickRateAttribute._TICK_RATE_RE.match(tr)
 
-      if m is not None:
+      if m is not None and int(m.group(1)) > 0:
 
         return int(m.group(1))
 
@@ -365,13 +405,19 @@ class FrameRateAttribute:
 
       m = FrameRateAttribute._FRAME_RATE_MULT_RE.match(frm_raw)
 
-      if m is not None:
+      if m is not None and int(m.group(2)) > 0:
 
         frm = Fraction(int(m.group(1)), int(m.group(2)))
 
       else:
 
         LOGGER.error("ttp:frameRateMultiplier invalid syntax")
+
+    if fr * frm <= 0:
+
+      LOGGER.error("The frame rate must be positive")
+
+      return Fraction(30, 1)
 
     return fr * frm
 
